@@ -953,8 +953,10 @@ impl Connection {
         self.app_limited = buf.is_empty() && !congestion_blocked;
 
         // Send MTU probe if necessary, unless the anti-amplification limit leaves no budget for the
-        // (unvalidated) path
+        // (unvalidated) path or queued data is waiting for congestion control or pacing, which a
+        // probe must not overtake
         if buf.is_empty()
+            && !congestion_blocked
             && self.state.is_established()
             && !self.path.anti_amplification_blocked(1)
         {
